@@ -530,7 +530,17 @@ func (n *nodeSim) judgeReport(b *bpv7.Bundle, where string) {
 	}
 	// no cascade: bounded number of reports per event
 	recs := 1 + tr.reinjected
-	if tr.reports["received"] > 2*recs || tr.reports["deleted"] > recs+1 || tr.reports["delivered"] > recs {
+	// per reception: one report if the bundle asked for it, one more for every unsupported block that asks for one
+	perRec := 1
+	for _, u := range tr.spec.Unknown {
+		if u.Flags&blockFlagReport != 0 {
+			perRec++
+		}
+	}
+	if perRec < 2 {
+		perRec = 2
+	}
+	if tr.reports["received"] > perRec*recs || tr.reports["deleted"] > recs+1 || tr.reports["delivered"] > recs {
 		n.res.Violate("C15", "no-cascade", "more-reports-than-events", "%s: reports %v for %d receptions", tr.spec.Tag, tr.reports, recs)
 	}
 }
